@@ -321,7 +321,9 @@ func (t *fieldHandlingTree) merge(other interface{}, opts ...Option) error {
 
 func (t *fieldHandlingTree) child(fieldName string, idx int) (*fieldHandlingTree, error) {
 	cfg := (*Config)(t)
-	child, err := cfg.Child(fieldName, idx)
+	// the name of a setting is looked up as it is: whether a numeric spelling is
+	// an index was decided when the settings and the option's path were parsed
+	child, err := cfg.Child(fieldName, idx, EnableNumKeys(true))
 	if err != nil {
 		return nil, err
 	}
